@@ -76,6 +76,14 @@ CHECKS = {
         note="Hang detection is wall clock (10 s per run in a forked child); the watchdog reports the decisions drawn so far as the replay. Found and fixed: endless loop on dispose-by-unknown-key-hash (f46dea5).",
         technique=TECH + "; whole-participant simulation with scripted wire traffic and a delivered-once-in-order oracle",
     ),
+    "C11": dict(
+        engine="E2",
+        category="exploration",
+        text="Seeded deterministic simulation (engine E2) of one real DomainParticipant with 2-4 local readers/writers (reliable or best-effort, Volatile or TransientLocal, topics T and U, created and deleted during the run) and two scripted remote participants with up to 3 writers and 3 readers each, driving real Discovery over the simulated network: SEDP announce, re-announce with the same QoS, endpoint dispose, participant dispose, silence beyond the 1 s lease (time-out, endpoints parked) and reappearance. After every discovery event and a settle, for every local endpoint the set reconstructed from its SubscriptionMatched / PublicationMatched events must equal {announced by a currently known participant or local, same topic, request/offered compatible}; every matched event changes the set by exactly one member that was (not) in it, carries current = size of the set and a total that never decreases and grows by the positive changes only; an incompatible endpoint is reported by an incompatible-QoS event and never matched; re-announcements change nothing; the endpoints of a lost participant are all unmatched within the settle window and matched again when a timed-out participant reappears.",
+        design_ref="DESIGN.md section 5 C11, section 12",
+        note="The per-endpoint status channel holds 4 events: a local endpoint that received 4 or more events in one collection (or was created with more than 3 matches due at once) is not observed any further in that run (counted as probe.*). Compatibility in the model covers reliability and durability only (C10 is a pure function, see not_applicable). Repeated incompatible-QoS events for one endpoint (one per re-notification) are not asserted about.",
+        technique=TECH + "; matched sets reconstructed from status events compared with a model of what is currently announced after every discovery event",
+    ),
     "C12": dict(
         engine="E2",
         category="exploration",
